@@ -134,6 +134,9 @@ func c17RunOp(n datamodel.Node, op c17op, y func()) string {
 		errs := 0
 		for steps := 0; !it.Done() && steps < 100000; steps++ {
 			k, v, err := it.Next()
+			if y != nil && steps%7 == 3 {
+				y() // other tasks' iterators over the same node advance in between
+			}
 			if err != nil {
 				errs++
 				continue
@@ -142,7 +145,7 @@ func c17RunOp(n datamodel.Node, op c17op, y func()) string {
 			l, _ := v.AsLink()
 			items = append(items, ks+"="+l.String())
 		}
-		sort.Strings(items)
+		// order matters too: an iterator must not be disturbed by another one
 		h := sha256.Sum256([]byte(strings.Join(items, "\n")))
 		return fmt.Sprintf("iter:%d:%d:%x", len(items), errs, h[:8])
 	case "asbytes":
